@@ -193,7 +193,7 @@ fn monitors(cx: &mut Ctx, op: &Op, ok: bool, before: &Snap, after: &Snap) {
         let f1 = big::d3_true_floor(amp as u128 * 3, r1);
         // D1/S1 >= D0/S0 for the true values  ==>  (floor D1 + 1) * S0 > floor D0 * S1
         if !((f1 + B::ONE) * b(before.supply) > f0 * b(after.supply)) {
-            let allow = dust_allowance(amp, &[r0, r1]);
+            let allow = dust_allowance(amp, &[r0, r1]) * (B::ONE + if f0.is_zero() { B::ZERO } else { f1 / f0 });
             if (f1 + B::ONE + allow) * b(before.supply) > f0 * b(after.supply) {
                 out.known_hit("C04", KNOWN_DUST, &format!("true invariant per LP fell by rounding dust across a {}", op.kind()), rp.clone());
             } else {
